@@ -610,7 +610,7 @@ SET_PROPS = {'C03', 'C04', 'C11', 'C12', 'C19'}
 # ------------------------------------------------------------------------------------------------------------------
 VEC_PROPS = {'C01', 'C02', 'C05', 'C06', 'C07', 'C10'}
 
-RELEVANT_STAT = {'C15': 'ops', 'C03': 'ops', 'C04': 'ops', 'C11': 'iterOps', 'C12': 'hints', 'C19': 'lookups', 'C18': 'ops', 'C08': 'limitExc', 'C13': 'ops', 'C14': 'ops', 'C09': 'faults', 'C01': 'ops', 'C02': 'prims', 'C05': 'pristineOps', 'C06': 'allocEvents', 'C07': 'stable', 'C10': 'alias'}
+RELEVANT_STAT = {'C16': 'ops', 'C15': 'ops', 'C03': 'ops', 'C04': 'ops', 'C11': 'iterOps', 'C12': 'hints', 'C19': 'lookups', 'C18': 'ops', 'C08': 'limitExc', 'C13': 'ops', 'C14': 'ops', 'C09': 'faults', 'C01': 'ops', 'C02': 'prims', 'C05': 'pristineOps', 'C06': 'allocEvents', 'C07': 'stable', 'C10': 'alias'}
 
 
 def make_replay(prop, r, v):
@@ -721,18 +721,226 @@ def suite_memalgo(tier, seed):
     return cached_suite('memalgo', tier, seed, compute)
 
 
+def suite_static(tier, seed):
+    def compute(d):
+        import re
+        md = workdir(d, 'mc_static')
+        vlib.copy_specs(md)
+        if tier == 'quick':
+            consts = ('Sizes = {1,2,3,4,8,12,16,24}', 'Aligns = {1,2,4,8,16}', 'Ns = {0,1,2,3,4,7,8,9,16,33,255,256,65535,65536}')
+        else:
+            consts = ('Sizes = {1,2,3,4,5,6,7,8,9,10,11,12,13,14,15,16,17,18,19,20,21,22,23,24}', 'Aligns = {1,2,4,8,16}',
+                      'Ns = {0,1,2,3,4,5,6,7,8,9,10,11,12,13,14,15,16,17,20,24,31,32,33,40,255,256,65535,65536}')
+        with open(os.path.join(md, 'Static.cfg'), 'w') as f:
+            f.write('SPECIFICATION Spec\nCONSTANTS\n %s\n %s\n %s\nINVARIANT Emit\nCHECK_DEADLOCK FALSE\n' % consts)
+        outp = os.path.join(md, 'rows.txt')
+        rc, _, dt = vlib.tlc(md, 'Static', 'Static.cfg', workers=4, outfile=outp, timeout=900, heap='4g')
+        rows = []
+        tail = []
+        for ln in open(outp):
+            if ln.startswith('<<"ROW", '):
+                rows.append(json.loads(json.loads(ln.rstrip('\n')[9:-2])))
+            elif not ln.startswith('<<'):
+                tail.append(ln)
+        tail = ''.join(tail)
+        if rc != 0 or 'No error has been found' not in tail or not rows:
+            raise InfraError('MODEL-ERROR: Static model failed\n' + tail[-2000:])
+        rows.sort(key=lambda r: (r['size'], r['align'], r['cat'], r['n']))
+        rows_path = os.path.join(md, 'rows.ndjson')
+        with open(rows_path, 'w') as f:
+            for r in rows:
+                f.write(json.dumps(r) + '\n')
+        # split into translation units of <= 600 rows (memory / parallelism)
+        import gen_static
+        tus = []
+        for i in range(0, len(rows), 600):
+            tu = os.path.join(md, 'static_%d.cpp' % (i // 600))
+            with open(tu, 'w') as f:
+                gen_static.emit_offset(rows[i:i + 600], f, i)
+            tus.append(tu)
+        nasserts = sum(open(t).read().count('SA(') for t in tus)
+        stds = ['c++11', 'c++17', 'c++20'] if tier == 'quick' else ['c++11', 'c++14', 'c++17', 'c++20']
+        comps = ['g++'] if tier == 'quick' else ['g++', 'clang++']
+        cells = [(c, s_, t) for c in comps for s_ in stds for t in tus]
+
+        def one(cell):
+            comp, std, tu = cell
+            cmd = [comp, '-std=' + std, '-fsyntax-only', '-w', '-ferror-limit=0' if comp == 'clang++' else '-fmax-errors=0', '-DAMC_NONSTD_FEATURES',
+                   '-I' + os.path.join(vlib.REPO, 'include'), '-I' + vlib.HARNESS, tu]
+            rc2, out, dt2 = vlib.run(cmd, timeout=1200)
+            fails = sorted(set(re.findall(r'VERIF_STATIC C17 row=(\d+) ([^"\n]*)', out)))
+            other = rc2 != 0 and not fails
+            return dict(comp=comp, std=std, tu=os.path.basename(tu), fails=fails, other=out[-1500:] if other else '', wall=dt2)
+        cs = pmap(one, cells, workers=8)
+        viol = []
+        for c in cs:
+            for rown, what in c['fails'][:30]:
+                viol.append(dict(p='C17', l=int(rown) + 1, why='%s [%s -std=%s] row %s' % (what.strip(), c['comp'], c['std'], json.dumps(rows[int(rown)]) if int(rown) < len(rows) else rown)))
+            if c['other']:
+                viol.append(dict(p='C17', l=1, why='translation unit does not compile (%s -std=%s): %s' % (c['comp'], c['std'], c['other'][-300:])))
+        r = dict(config='static_matrix', tag='static', trace=rows_path, lines=len(rows), viol=viol, is_ref=False, kind='static', wall=sum(c['wall'] for c in cs),
+                 run_wall=0, script=rows_path, stats=dict(ops=nasserts * len(stds) * len(comps), execs=len(cells), rows=len(rows)),
+                 static=dict(rows=len(rows), asserts_per_cell=nasserts, cells=[(c['comp'], c['std']) for c in cs if c['tu'] == 'static_0.cpp'],
+                             sample_rows=rows[:3] + rows[len(rows) // 2:len(rows) // 2 + 2]))
+        return dict(results=[r])
+    return cached_suite('static', tier, seed, compute)
+
+
+C16_COMMON = ('AllOps \\ {"eraseVal", "relocate", "swap2", "ctorFromVector", "popBackVal", "appendN", "appendNVal", "appendRange", '
+              '"appendIlist", "reserveBig"}')
+C16_PAIR = ('{"assignCopy", "assignMove", "swap", "eq", "ne", "lt", "le", "gt", "ge", "ctorCopy", "ctorMove", "destroy", "ctorDefault", '
+            '"ctorCountVal", "pushBack", "popBack", "clear", "reserve", "shrinkToFit", "assignN", "insert1", "erase1"}')
+C16_EXTRA1 = '{"ctorDefault", "ctorCountVal", "destroy", "pushBack", "popBack", "popBackVal", "appendN", "appendNVal", "appendRange", "appendIlist", "reserve"}'
+C16_EXTRA2 = '{"ctorDefault", "ctorCountVal", "destroy", "pushBack", "popBack", "clear", "reserve", "shrinkToFit", "swap2", "eq"}'
+C16_TYPES = {1: ('vector', 0, 'u32'), 2: ('small', 2, 'u32'), 3: ('fixed', 6), 4: ('vector', 0, 'u32'), 5: ('small', 3, 'u32')}
+
+
+def suite_matrix(tier, seed):
+    def compute(d):
+        import itertools
+        types = [2, 3, 4] if tier == 'quick' else [1, 2, 3, 4, 5]
+        if tier == 'quick':
+            cells = [('g++', 'c++11', False, False, '-O0'), ('g++', 'c++14', True, True, '-O2'), ('g++', 'c++17', False, True, '-O2'),
+                     ('g++', 'c++20', True, False, '-O0'), ('g++', 'c++11', True, True, '-O2'), ('g++', 'c++20', False, True, '-O0')]
+        else:
+            cells = [(c, s_, x, n, o) for c in ('g++', 'clang++') for s_ in ('c++11', 'c++14', 'c++17', 'c++20') for x in (False, True)
+                     for n in (False, True) for o in ('-O0', '-O2')]
+        # scripts per type, from the TLC models
+        scripts = {}
+        jobs = []
+        for ty in types:
+            sl = C16_TYPES[ty]
+            c1 = ImplCfg('c16_t%d' % ty, 'TC', 'amc', [sl])
+            c2 = ImplCfg('c16_p%d' % ty, 'TC', 'amc', [sl, sl])
+            p_common = dict(Vals=[1, 2], MaxLen=3, MaxCnt=2, Its=['ptr', 'input'], RLens=[0, 1, 2], Ops=C16_COMMON, WalkLen=300)
+            p_pair = dict(Vals=[1, 2], MaxLen=2, MaxCnt=1, Its=['ptr'], RLens=[0, 1], Ops=C16_PAIR, WalkLen=300, Alias=False)
+            p_x1 = dict(Vals=[1, 2], MaxLen=3, MaxCnt=2, Its=['ptr', 'input'], RLens=[0, 1, 2], Ops=C16_EXTRA1, WalkLen=300)
+            p_x2 = dict(Vals=[1, 2], MaxLen=2, MaxCnt=1, Its=['ptr'], RLens=[0, 1], Ops=C16_EXTRA2, WalkLen=300, Alias=False)
+            jobs += [(c1, p_common), (c2, p_pair), (c1, p_x1), (c2, p_x2)]
+            scripts[ty] = dict(common=[(c1, p_common), (c2, p_pair)], extra=[(c1, p_x1), (c2, p_x2)])
+        export_models(d, jobs)
+        models = []
+        for ty in types:
+            for kind in ('common', 'extra'):
+                path = os.path.join(d, 'c16_t%d_%s.script' % (ty, kind))
+                with open(path, 'w') as f:
+                    for cfg, params in scripts[ty][kind]:
+                        md, info = vecpipe.mc_export(d, cfg.model(), params, cfg.name)
+                        f.write(open(os.path.join(md, 'walks.script')).read())
+                        models.append(info)
+                scripts[ty][kind + '_path'] = path
+
+        def cellname(cell):
+            comp, std, extras, ndebug, opt = cell
+            return '%s_%s_%s_%s_%s' % (comp.replace('+', 'p'), std.replace('+', 'p'), 'x' if extras else 'p', 'nd' if ndebug else 'as', opt[1:])
+
+        def one(job):
+            cell, ty = job
+            comp, std, extras, ndebug, opt = cell
+            name = 'c16_%s_t%d' % (cellname(cell), ty)
+            binary = os.path.join(workdir(d, 'bin'), name)
+            defs = ['C16_TYPE=%d' % ty] + (['NDEBUG'] if ndebug else [])
+            cmd = [comp, '-std=' + std, opt, '-w', '-I' + os.path.join(vlib.REPO, 'include')] + ['-D' + x for x in defs] + \
+                  (['-DAMC_NONSTD_FEATURES'] if extras else []) + [os.path.join(vlib.HARNESS, 'c16_main.cpp'), '-o', binary]
+            rc, out, dt = vlib.run(cmd, timeout=900)
+            if rc != 0:
+                return dict(name=name, cell=cell, ty=ty, build_error=out[-1500:])
+            res = dict(name=name, cell=cell, ty=ty, traces={})
+            for kind in (['common', 'extra'] if extras else ['common']):
+                trace = os.path.join(workdir(d, 'traces'), '%s_%s.ndjson' % (name, kind))
+                rc2, out2, dt2 = vlib.run([binary, scripts[ty][kind + '_path'], trace], timeout=900)
+                if rc2 != 0:
+                    res['traces'][kind] = dict(trace=trace, crashed='rc=%d %s' % (rc2, out2[-300:]))
+                    continue
+                v = vecpipe.validate_vec(d, trace, '%s_%s' % (name, kind))
+                v['trace'] = trace
+                res['traces'][kind] = v
+            return res
+        runs = pmap(one, [(c, t) for c in cells for t in types], workers=8)
+        # byte-for-byte comparison of the transcripts across cells (config line excluded)
+        import hashlib
+        results = []
+        digests = {}
+        for rr in runs:
+            for kind, v in rr.get('traces', {}).items():
+                if 'crashed' in v:
+                    continue
+                with open(v['trace'], 'rb') as f:
+                    f.readline()
+                    digests[(rr['ty'], kind, rr['name'])] = hashlib.sha256(f.read()).hexdigest()
+        for rr in runs:
+            viol = []
+            lines = 0
+            stats = dict(ops=0, execs=0, drift=0, skipped=0)
+            if rr.get('build_error'):
+                viol.append(dict(p='C16', l=1, why='does not compile in this cell: ' + rr['build_error'][-300:]))
+            for kind, v in rr.get('traces', {}).items():
+                if 'crashed' in v:
+                    viol.append(dict(p='C16', l=1, why='program crashed in this cell (%s): %s' % (kind, v['crashed'])))
+                    continue
+                lines += v['lines']
+                for k_ in ('ops', 'execs', 'drift', 'skipped'):
+                    stats[k_] += v['stats'].get(k_, 0)
+                for x in v['viol']:
+                    viol.append(dict(p='C16' if x['p'] != 'MODEL' else 'MODEL', l=x['l'], why='[%s] differs from the specification (%s): %s' % (kind, x['p'], x['why'])))
+                if v.get('rejected_at'):
+                    viol.append(dict(p='MODEL', l=v['rejected_at'], why='TLC could not evaluate the transcript'))
+                ref = sorted(n for (ty, kd, n) in digests if ty == rr['ty'] and kd == kind)[0]
+                if digests[(rr['ty'], kind, rr['name'])] != digests[(rr['ty'], kind, ref)]:
+                    # first differing line
+                    a = open(v['trace']).read().split('\n')
+                    b = open(os.path.join(d, 'traces', '%s_%s.ndjson' % (ref, kind))).read().split('\n')
+                    ln = next((i for i in range(1, min(len(a), len(b))) if a[i] != b[i]), min(len(a), len(b)))
+                    viol.append(dict(p='C16', l=ln + 1, why='[%s] transcript differs from cell %s at line %d' % (kind, ref, ln + 1)))
+            tr = next((v['trace'] for v in rr.get('traces', {}).values() if 'trace' in v), '')
+            results.append(dict(config=rr['name'], tag='matrix', trace=tr, lines=lines, viol=viol, is_ref=False, kind='matrix', wall=0, run_wall=0,
+                                script='', stats=stats))
+        # compile probes: extras absent in pedantic mode, SmallSet absent before C++17
+        probe_viol = []
+        nprobes = 0
+
+        def probe(args):
+            comp, std, extras, n = args
+            cmd = [comp, '-std=' + std, '-fsyntax-only', '-w', '-I' + os.path.join(vlib.REPO, 'include'), '-DPROBE=%d' % n] + \
+                  (['-DAMC_NONSTD_FEATURES'] if extras else []) + [os.path.join(vlib.HARNESS, 'c16_probe.cpp')]
+            rc, out, dt = vlib.run(cmd, timeout=300)
+            return (comp, std, extras, n, rc == 0)
+        pj = [('g++', s_, x, n) for s_ in ('c++11', 'c++17', 'c++20') for x in (False, True) for n in range(0, 13)]
+        pj += [('g++', s_, True, 20) for s_ in ('c++11', 'c++14', 'c++17', 'c++20')]
+        for comp, std, extras, n, ok in pmap(probe, pj, workers=8):
+            nprobes += 1
+            if n == 20:
+                want = std in ('c++17', 'c++20')
+            elif n == 0:
+                want = True
+            elif n == 11 and std == 'c++11':
+                want = extras
+            else:
+                want = extras
+            if ok != want:
+                probe_viol.append(dict(p='C16', l=1, why='compile probe %d (%s, extras %s): %s' % (
+                    n, std, 'on' if extras else 'off', 'a non-standard extra is PRESENT in pedantic mode' if ok else 'does not compile although the feature is offered')))
+        results.append(dict(config='c16_compile_probes', tag='probes', trace='', lines=nprobes, viol=probe_viol, is_ref=False, kind='matrix', wall=0,
+                            run_wall=0, script='', stats=dict(ops=nprobes, execs=nprobes, drift=0, skipped=0)))
+        for r_ in results:
+            r_['mc'] = dict(states=sum(m['states'] for m in models), transitions=sum(m['transitions'] for m in models),
+                            model=dict(module='Vec', note='models of the C16 corpus'), params=dict(cells=len(cells), types=types), ops={}, sample_walk=models[0]['sample_walk'])
+        return dict(results=results)
+    return cached_suite('matrix', tier, seed, compute)
+
+
 SUITE_FN = {}
 PROP_SUITES = {
     'C01': ['vec'], 'C02': ['vec', 'swap2', 'fault', 'sets', 'setfault'], 'C03': ['sets'], 'C04': ['sets'], 'C05': ['vec', 'sets'],
     'C06': ['vec', 'swap2', 'fault', 'sets', 'setfault'], 'C07': ['vec'], 'C08': ['limit'], 'C09': ['fault', 'setfault'],
     'C10': ['vec'], 'C11': ['sets'], 'C12': ['sets'], 'C13': ['swap2'], 'C14': ['vec', 'swap2', 'sets'], 'C18': ['vec', 'growth'],
-    'C19': ['sets', 'bigsets'], 'C15': ['memalgo'],
+    'C19': ['sets', 'bigsets'], 'C15': ['memalgo'], 'C17': ['static'], 'C16': ['matrix'],
 }
 
 
 def run_property(prop, tier, seed):
     SUITE_FN.update(vec=suite_vec, swap2=suite_swap2, fault=suite_fault, limit=suite_limit, growth=suite_growth, sets=suite_sets,
-                    setfault=suite_setfault, bigsets=suite_bigsets, memalgo=suite_memalgo)
+                    setfault=suite_setfault, bigsets=suite_bigsets, memalgo=suite_memalgo, static=suite_static, matrix=suite_matrix)
     if prop not in PROP_SUITES:
         raise InfraError('no check for property %s' % prop)
     results, wall, cached, extra = [], 0.0, True, {}
@@ -758,6 +966,15 @@ def run_property(prop, tier, seed):
     if prop in ('C19', 'C12'):
         cov['max_lookup_cmps'] = max([r['stats'].get('maxLookupCmps', 0) for r in results] + [0])
         cov['max_correct_hint_cmps'] = max([r['stats'].get('maxHintCmps', 0) for r in results] + [0])
+    if prop == 'C17':
+        st = results[0]['static']
+        ev['level'] = 'exploration'
+        cov.update(evaluations=results[0]['stats']['ops'], distinct_nontrivial=st['rows'], exhaustive=True,
+                   rule='TLC evaluates the static contract (Static.tla) for every (element size, alignment, category, N) of the matrix; '
+                        'each row becomes static_asserts on real instantiations (is_trivially_relocatable, FixedCapacityVector triviality and '
+                        'size_type, SmallVector size bound, noexcept of move / swap, container traits), decided by the compiler in every cell '
+                        '(compiler x language standard); distinct_nontrivial = number of rows, evaluations = static_asserts x cells',
+                   samples=st['sample_rows'], cells=st['cells'], asserts_per_cell=st['asserts_per_cell'])
     if prop == 'C09':
         ev['level'] = 'fault_enumeration'
         nf = sum(r['stats'].get('faults', 0) for r in results)
